@@ -63,6 +63,12 @@ class Run(object):
         else: self.violated(key, detail_bad, where, rule)
         return cond
 
+    def shape(self, cond, key, detail_unknown, where=None, detail_ok=None, rule=None):
+        """for pure idiom recognition: discharged or *unknown*, never a violation"""
+        if cond: self.ok(key, detail_ok, where, rule)
+        else: self.unknown(key, detail_unknown, where, rule)
+        return cond
+
     def trust(self, *items):
         for i in items:
             if i not in self.trusted: self.trusted.append(i)
